@@ -725,16 +725,27 @@ RestorePers(id, res) ==
 -----------------------------------------------------------------------------
 (* Whole-database operations *)
 
+\* a deviation of the code that known_findings.txt lists: reported, not rejected
+Known(sig, R) == PrintT(<<"KNOWN", sig, R.run, R.i>>)
+
 \* compact(): contents unchanged; refuses with savepoints / readers; never makes the file larger;
 \* finishes in a number of passes bounded by the size of the file (R carries the storage length before
 \* and after, the number of sync_data calls and the number of pages of the file before)
 Compact(res, R) ==
   /\ ~wtx.on
-  /\ ("len0" \in DOMAIN R /\ ~IsErr(res)) => (R.len1 <= R.len0 /\ R.syncs <= 8 * (R.pages0 + 8))
+  \* KNOWN FINDING C13/compact-grows-a-compacted-file: a compact() that finds nothing to move (Ok(FALSE)) on a file the previous
+  \* compact() has just trimmed may EXTEND the file (its forced commit finds no free page; the trailing region is grown and the
+  \* pages the commit takes lie at its end).  Named as its own disjunct, reported through Known(), accepted only while
+  \* known_findings.txt lists it.
+  /\ ("len0" \in DOMAIN R /\ ~IsErr(res)) =>
+        /\ R.syncs <= 8 * (R.pages0 + 8)
+        /\ R.len1 <= R.len0 \/ (res = Ok(FALSE) /\ Known("C13/compact-grows-a-compacted-file", R))
   \* the end state is a fixpoint (Compact.tla): compact() called again at once moves nothing.  (It may still trim: with
   \* several regions each commit of the drain gives up one trailing region at most, and the drain stops when nothing is
   \* pending - seen on the real code, 197 120 -> 66 048 bytes by a call that reports "nothing compacted"; not a property.)
-  /\ ("again" \in DOMAIN R /\ ~IsErr(res)) => (R.again = Ok(FALSE) /\ R.len2 <= R.len1)
+  /\ ("again" \in DOMAIN R /\ ~IsErr(res)) =>
+        /\ R.again = Ok(FALSE)
+        /\ R.len2 <= R.len1 \/ Known("C13/compact-grows-a-compacted-file", R)
   \* (after a reported storage error compact() is refused like every write; WHICH refusal it reports is not determined
   \* then: the savepoint registrations of a commit that failed stay in the tracker until the database is reopened)
   /\ IF latch # "ok" THEN IsErr(res)
@@ -751,7 +762,6 @@ Compact(res, R) ==
 \* KNOWN FINDING C11/integrity-false-after-unpersisted-growth: in that situation the real code reports
 \* Ok(FALSE) ("repaired") although nothing is damaged; the deviation is named here as its own
 \* disjunct, reported through Known(), and accepted only if known_findings.txt lists it.
-Known(sig, R) == PrintT(<<"KNOWN", sig, R.run, R.i>>)
 
 CheckIntegrity(res, stale, R) ==
   /\ ~wtx.on
